@@ -1670,7 +1670,14 @@ func main() {
 				})
 				sres := runJoin(small, nil)
 				f := sres.fail
+				// the two known-finding classes first, so that their patterns keep matching
 				key := "mapi:Join"
+				if sres.sharedInner {
+					key += ":inner-under-two-keys"
+				}
+				if sres.movedInner {
+					key += ":inner-moved-between-keys"
+				}
 				if sres.unobserved {
 					key += ":stale-after-relink"
 				}
@@ -1685,12 +1692,6 @@ func main() {
 						key += ":computed-inner"
 						break
 					}
-				}
-				if sres.sharedInner {
-					key += ":inner-under-two-keys"
-				}
-				if sres.movedInner {
-					key += ":inner-moved-between-keys"
 				}
 				report(key, fmt.Sprintf("mapi.Join: %s: got %v want %v after %v (innerN starts at N+1)", f.what, f.got, f.want, joinStrings(small)),
 					map[string]any{"operator": "Join", "edits": small, "script": joinStrings(small), "got": f.got.String(), "want": f.want.String(),
@@ -1743,9 +1744,15 @@ func main() {
 			for i := 0; len(sample) < *coqMax; i++ {
 				progressed := false
 				for _, k := range kinds {
-					if i < len(byKind[k]) && len(sample) < *coqMax {
-						sample = append(sample, byKind[k][i])
-						progressed = true
+					per := 1
+					if k == "Join" {
+						per = 4 // four times as many histories, and the most intricate model
+					}
+					for n := i * per; n < (i+1)*per; n++ {
+						if n < len(byKind[k]) && len(sample) < *coqMax {
+							sample = append(sample, byKind[k][n])
+							progressed = true
+						}
 					}
 				}
 				if !progressed {
